@@ -1,6 +1,8 @@
 """C02 — exact marginal log likelihood and LOO objective equal their dense definitions (values and gradients).
 
-Tie: correspondence.  For random exact-GP models (harness/props/_c02models.py) the harness evaluates the
+Tie: translator G7 (harness/translate/g7_mll_assembly.py -> lean/GPVerif/Gen/MLLAssembly.lean: the assembly of the
+objectives regenerated from the source on every run; `gen_*` theorems of Props/C02.lean prove it equal to the model; the
+driver executes the generated definitions) AND correspondence.  For random exact-GP models (harness/props/_c02models.py) the harness evaluates the
 model's own prior mean m and covariance K at the training inputs densely, builds the documented noise S from
 the likelihood's public parameters, recomputes every registered prior's log density from closed forms, reads
 the registered added-loss terms, and ships A = K + S, r = y - m, the prior terms (with their tensor shapes)
@@ -26,14 +28,15 @@ from lib import common as C
 
 ID = "C02"
 PROP_MODULES = ["GPVerif.Props.C02"]
-BUILD_TARGETS = ["GPVerif.Props.C02", "GPVerif.Model.MLL", "GPVerif.Model.Proto"]
+BUILD_TARGETS = ["GPVerif.Props.C02", "GPVerif.Gen.MLLAssembly", "GPVerif.Model.MLL", "GPVerif.Model.Proto"]
 RULE = ("random exact-GP models: 15 kernel expressions x {zero, constant, linear} mean x {Gaussian, FixedNoise, "
         "FixedNoise+learned, multitask Kronecker rank 0..t} x batch {none, model, data} x priors {Normal, Gamma, "
         "LogNormal, SmoothedBox} on {lengthscale, outputscale, noise, mean constant} x {SGPR added loss}; every model "
         "is checked on the default (Cholesky) path and with fast_computations(log_prob=False), its gradients against "
         "a dense re-expression and finite differences; LOO and SumMLL on their own model draws. distinct = distinct "
         "(configuration, seed); non-trivial = n >= 2 or at least one prior / added-loss term")
-TRUSTED = ["pure-Python mirror of the driver protocol (py_step: Fraction Gauss-Jordan) — cross-checked against the "
+TRUSTED = ["translator harness/translate/g7_mll_assembly.py (Python ast -> Lean expression IR)",
+           "pure-Python mirror of the driver protocol (py_step: Fraction Gauss-Jordan) — cross-checked against the "
            "Lean driver on every request line",
            "mpmath log of the exact determinant / exact LOO variances (50 digits)",
            "closed-form prior log densities in harness/props/_c02models.py (Normal, Gamma, LogNormal, SmoothedBox)",
@@ -45,6 +48,30 @@ ASSUMPTIONS = ["float64 only; noise >= 0.05, cases with cond(A) > 1e6 are discar
                "stochastic (CG / Lanczos) path: monitored as an assumption about linear_operator, within 6 sigma of "
                "the Hutchinson estimator — never reported as a violation of gpytorch",
                "gradients are decided by the correspondence only (no theorem)"]
+
+def generate(ctx):
+    """Translator G7: regenerate Gen/MLLAssembly.lean from $VERIF_REPO's working tree (division by num_data, sign and
+    order of the added-loss / prior terms, the prior-term reduction expression, the LOO sigma^2 / mu formulas, summands
+    and final reduction, the SumMLL mean).  The `gen_*` theorems of Props/C02.lean are re-checked against it and the
+    driver executes it."""
+    import sys
+    sys.path.insert(0, os.path.join(C.VERIF, "harness"))
+    from translate import g7_mll_assembly
+    out = os.path.join(C.LEAN_DIR, "GPVerif", "Gen", "MLLAssembly.lean")
+    try:
+        facts, changed = g7_mll_assembly.generate(C.REPO, out)
+    except Exception:
+        # broken tie: put the baseline back (and rebuild it) so that the driver of the failing-input search runs the
+        # model-equal definitions, not a stale file generated from some other tree
+        base = os.path.join(C.VERIF, "harness", "translate", "baselines", "MLLAssembly.lean")
+        if os.path.exists(base) and (not os.path.exists(out) or open(out).read() != open(base).read()):
+            with open(out, "w") as fh:
+                fh.write(open(base).read())
+        C.lake_build(["GPVerif.Gen.MLLAssembly"])
+        raise
+    ctx.notes["gen_changed"] = changed
+    ctx.notes["gen_facts"] = facts
+
 
 LOG2PI = math.log(2 * math.pi)
 FINDING_PREFIX = "prior-batch-sum:SmoothedBoxPrior:"
@@ -200,10 +227,11 @@ class Oracle:
             return [py_step(l) for l in lines]
         rep = C.run_driver("C02", lines)
         bad = 0
-        for l, a in zip(lines, rep):
+        for k, (l, a) in enumerate(zip(lines, rep)):
             b = py_step(l)
             if a != b:
                 bad += 1
+                rep[k] = b    # the mirror is the model / specification: the implementation is judged against it
                 if bad <= 3:
                     self.ctx.broke("correspondence", "driver-vs-python-mirror:" + l.split()[0],
                                    f"request `{l[:160]}`\nlean:   {a[:200]}\npython: {b[:200]}")
@@ -923,6 +951,11 @@ def search(ctx, broken):
 
 
 def replay(ctx, payload):
+    try:    # the driver must run the definitions of the tree being replayed, not a stale generated file
+        generate(ctx)
+        C.lake_build(["GPVerif.Gen.MLLAssembly"])
+    except Exception:
+        pass
     case = payload["case"]
     what, cfg = case["what"], case["cfg"]
     try:
